@@ -11,8 +11,9 @@ Import ListNotations.
 
 (* ---------- state ---------- *)
 
-(* value of a scope entry: None | _UseChecker (index into [checkers]) *)
-Inductive entry := Plain | Chk (cid : nat).
+(* value of a scope entry: None | _UseChecker (index into [checkers]) | _PrefixUse (the package name
+   bound by plain `import pkg.sub` statements: the checkers of those imports - F16 repair) *)
+Inductive entry := Plain | Chk (cid : nat) | Pfx (cids : list nat).
 Definition dict := list (dotted * entry).        (* Python dict: insertion-ordered, unique keys *)
 Inductive skind := KNormal | KClass.             (* dict | _ClassScope *)
 
@@ -93,6 +94,7 @@ Definition set_in_scope (s : st) (i : nat) (k : dotted) (v : entry) : st :=
    for ns in reversed(namespaces): for partial_name in fullname.prefixes[::-1]:
        var = ns[partial_name]  (KeyError -> continue)
        if isinstance(var, _UseChecker): var.used = True
+       elif isinstance(var, _PrefixUse): for checker in var.checkers: checker.used = True
        ... var is not a module registered under that name -> return False
    return True
    Every value this model stores (None, _UseChecker, and the non-module values the harness puts
@@ -115,6 +117,7 @@ Fixpoint needs_stack (s : st) (stk_rev : list nat) (ps : list dotted) : bool * s
   | [] => (true, s)
   | i :: r => match first_present (scope_dict s i) ps with
               | Some (Chk c) => (false, mark_used s c)
+              | Some (Pfx cs) => (false, fold_left mark_used cs s)
               | Some Plain => (false, s)
               | None => needs_stack s r ps
               end
@@ -154,7 +157,7 @@ Definition report_unused_of (s : st) (d : dict) : st :=
   fold_left (fun s kv => match snd kv with
                          | Chk c => let ck := checker_at s c in
                                     if c_used ck then s else with_unused s (unused s ++ [(c_line ck, c_imp ck)])
-                         | Plain => s
+                         | _ => s
                          end) d s.
 Definition pop (s : st) (i : nat) : st := report_unused_of s (scope_dict s i).
 
@@ -206,23 +209,36 @@ Definition store (track : bool) (s : st) (stk : stack) (n : dotted) (v : entry) 
     else s in
   set_in_scope s1 (top stk) n v.
 
-(* _visit_StoreImport(alias, modulename) *)
+(* _visit_StoreImport(alias, modulename), repaired (F16):
+     value = None | _UseChecker(name, Import.from_split(...), lineno)
+     prefixes = DottedIdentifier(node.name).prefixes[:-1] if not node.asname and not is_star else []
+     old_prefix_values = [scope.get(p) for p in prefixes]
+     for prefix in prefixes: _visit_Store(prefix, None)
+     _visit_Store(name, value)
+     if value is not None:
+         for prefix, old in zip(prefixes, old_prefix_values):
+             scope[prefix] = _PrefixUse((old.checkers if isinstance(old, _PrefixUse) else ()) + (value,)) *)
 Definition store_import (track : bool) (s : st) (stk : stack)
            (aname : dotted) (asname : option name) (modname : option dotted) : st :=
   let key := match asname with Some a => [a] | None => aname end in
   let is_star := dotted_eqb aname [n_star] in
-  let s1 := match asname with
-            | None => if is_star then s
-                      else fold_left (fun s p => store track s stk p Plain) (proper_prefixes aname) s
-            | Some _ => s
-            end in
   let is_future := match modname with Some m => dotted_eqb m [n_future] | None => false end in
-  if negb track || is_star || is_future then store track s1 stk key Plain
+  let prefixes := match asname with
+                  | None => if is_star then [] else proper_prefixes aname
+                  | Some _ => []
+                  end in
+  let olds := map (fun p => dict_get (scope_dict s (top stk)) p) prefixes in
+  if negb track || is_star || is_future then
+    store track (fold_left (fun s p => store track s stk p Plain) prefixes s) stk key Plain
   else
-    let cid := length (checkers s1) in
+    let cid := length (checkers s) in
     let full := match modname with None => aname | Some m => m ++ aname end in
-    let s2 := with_checkers s1 (checkers s1 ++ [mkChecker (full, key) (lineno s1) false]) in
-    store track s2 stk key (Chk cid).
+    let s0 := with_checkers s (checkers s ++ [mkChecker (full, key) (lineno s) false]) in
+    let s1 := fold_left (fun s p => store track s stk p Plain) prefixes s0 in
+    let s2 := store track s1 stk key (Chk cid) in
+    fold_left (fun s po => set_in_scope s (top stk) (fst po)
+                             (Pfx (match snd po with Some (Pfx cs) => cs | _ => [] end ++ [cid])))
+              (combine prefixes olds) s2.
 
 Fixpoint vtarget (track : bool) (t : target) (stk : stack) (s : st) {struct t} : st :=
   match t with
@@ -251,6 +267,9 @@ Fixpoint vexpr (track : bool) (e : expr) (stk : stack) (s : st) {struct e} : st 
   | ELoad n attrs => load s stk (n :: attrs)
   | EOp es => (fix go (l : list expr) (s : st) : st :=
                  match l with [] => s | x :: r => go r (vexpr track x stk s) end) es s
+  | EAttr e _ =>
+      (* visit_Attribute on a non-Name base: generic_visit(node) visits the base expression *)
+      vexpr track e stk s
   | ELambda ps defaults body =>
       (* visit_Lambda: with _NewScopeCtx(include_class_scopes=True): visit(args) ... *)
       let '(stkA, s1) := push s stk true false false in
